@@ -35,6 +35,10 @@ RULE = ("(a) Hypothesis: expanded expressions with every object kind the "
         "under atheris.instrument_imports) mutates the byte buffer that "
         "Hypothesis decodes into a case of (a) (fuzz_one_input), same "
         "oracle inside the target, seeded pseudo-random starting corpus. "
+        "(d) configured tensor names: 16 (quick) / 32 (thorough) library "
+        "outputs derived, printed and imported in a fresh interpreter whose "
+        "package copy holds a tensor_names.json with names of different "
+        "lengths; same three clauses, values compared after renaming back. "
         "Non-trivial: >= 2 object kinds and one of: "
         "fraction, spin label, numbered name, NO group, exponent.")
 BUDGET = {"quick": 100, "thorough": 1500}
@@ -439,9 +443,53 @@ def lib_cases():
     return out
 
 
+# ------------------------------------- configured tensor names (stage d)
+CONF_REQ = ["sym_denoms", "m_ph_ph_2", "expand_density", "energy2",
+            "mp_amp_2_ph", "p0_2_oo", "t2_2", "tm_2", "expec_block_1",
+            "mvp_1", "m_ip_2", "t1_2_once", "expec_2", "re_energy2",
+            "mp_amp_1_pphh", "overlap_pre_2"]
+
+
+def run_conf(case, r):
+    """round trip of a library output in a fresh interpreter whose package
+    copy (scratch directory, removed afterwards) holds a generated
+    tensor_names.json"""
+    from . import c19
+    conf = {"A": c19.CONF_A, "B": c19.CONF_B}.get(case["conf"])
+    if conf is None or case["request"] not in CONF_REQ:
+        raise BadCase("unknown configuration case")
+    pp = c19.package_copy(conf)
+    job = {"request": case["request"], "history": [], "simplify": False,
+           "roundtrip": True, "names_back": c19.names_back_map(conf),
+           "adcgen_root": pp}
+    got, err = c19.run_worker(job, 0, pp)
+    r.sample = f"[{case['request']} under tensor names {conf}]"
+    if got is None:
+        r.fail("conf/worker_failed", f"{r.sample}: {err}")
+        return
+    rt = got.get("roundtrip") or {}
+    r.sample += " " + str(rt.get("text"))[:200]
+    if rt.get("error"):
+        r.fail("conf/exception", f"{r.sample}: {rt['error']}\n"
+               f"{rt.get('trace')}")
+        return
+    if rt.get("kinds"):
+        r.fail("conf/kinds", f"{r.sample}: tensor kinds changed: "
+               f"{rt['kinds']}")
+    if rt.get("reprint") is not None:
+        r.fail("conf/reprint", f"{r.sample} -> {rt['reprint']}")
+    if rt.get("fp") != got.get("fp"):
+        r.fail("conf/value", f"{r.sample}: fingerprints {got.get('fp')} -> "
+               f"{rt.get('fp')}")
+    r.nontrivial = True
+    r.cls("configured_names", f"conf={case['conf']}")
+
+
 def run_case(case):
     r = R()
-    if case.get("sub") == "lib":
+    if case.get("sub") == "conf":
+        run_conf(case, r)
+    elif case.get("sub") == "lib":
         run_lib(case, r)
     else:
         run_gen(case, r)
@@ -454,6 +502,12 @@ def run_shard(col, shard, nshards, seed, tier):
     mine = cases[shard::nshards][::step]
     for c in mine:
         col.run(c, run_case)
+    for k in range(shard, 2 * len(CONF_REQ), nshards):
+        if tier == "quick" and k >= len(CONF_REQ):
+            break
+        conf = "A" if (k // len(CONF_REQ) + k) % 2 == 0 else "B"
+        col.run({"sub": "conf", "request": CONF_REQ[k % len(CONF_REQ)],
+                 "conf": conf}, run_case)
     if getattr(col, "atheris", False):
         # coverage-guided stage (thorough tier, 4 of 16 shards): does not
         # return, the collector is written by col.finish()
